@@ -188,6 +188,8 @@ func c16Gen(seed int64, idx int) *c16Case {
 		one := yang.FormatScaled(bi(1), fd)
 		for _, s := range []string{"0", "1", "-1", "+1", "1.5", ".5", "5.", "-.5", "1.", "1e2", "1E2", "0x1p3", "Inf", "+Inf", "NaN", "infinity", "1_0.0", "1..0", "1.2.3", "", "-", "+", " 1.0", "1.0 ",
 			one, one + "0", "-" + one, "+" + one, "007.5", "-0.0", "+0.0", "0.0", "9223372036854775807", "9223372036854775808", "-9223372036854775808", "-9223372036854775809",
+			// other spellings of numbers: an exponent, a sign, a bare period, hex, underscores, special values
+			"1.5e3", "-1.5e1", "+2.e2", "1.5e-3", "0.15e4", "1.5E0", "1e0", "1.e0", "+1.5", "1.", ".5", "0x1.8p1", "1_0.5", "1.5_0", "NaN", "Inf", "-Inf", "1.5 ", " 1.5", "1,5",
 			"123456789012345678", "1234567890123456789", "12345678901234567890", "0." + strings.Repeat("1", fd), "0." + strings.Repeat("1", fd+1), "1." + strings.Repeat("0", 19)} {
 			probe(s)
 		}
